@@ -369,8 +369,22 @@ def check(prog, rep):
                     if isinstance(t, ast.Attribute) and t.attr == "_value":
                         writers.append((fi, n))
     names = sorted({f.qual.split(":")[1] for f, _ in writers})
-    ok = set(names) <= {"Parameter.__init__", "Parameter.set"}
-    rep.ob("R12.5", "Parameter._value", ok, f"written only by {names}" if ok else f"Parameter._value is also written by {sorted(set(names) - {'Parameter.__init__', 'Parameter.set'})}", loc=prog.cls("Parameter").loc, detail="writers")
+    # private helpers of Parameter that are only called from __init__ / set (or from such helpers) write on their behalf
+    allowed = {"Parameter.__init__", "Parameter.set"}
+    Pcls = prog.cls("Parameter")
+    grew = True
+    while grew:
+        grew = False
+        for mname, m_ in Pcls.methods.items():
+            q_ = f"Parameter.{mname}"
+            if q_ in allowed or not mname.startswith("_") or mname.startswith("__"):
+                continue
+            callers = {f_.qual.split(":")[1] for f_ in prog.functions.values() for c_ in walk_local(f_.node) if isinstance(c_, ast.Call) and isinstance(c_.func, ast.Attribute) and c_.func.attr == mname}
+            if callers and callers <= allowed:
+                allowed.add(q_)
+                grew = True
+    ok = set(names) <= allowed
+    rep.ob("R12.5", "Parameter._value", ok, robust=True, msg= f"written only by {names}" if ok else f"Parameter._value is also written by {sorted(set(names) - allowed)}", loc=prog.cls("Parameter").loc, detail="writers")
     # gradient of a Parameter is a fresh constant 0, never its value (C02 R02.3), and the LP extractors only read
     # Constant-guarded values (R12.1)
     rep.expect_min("R12.1", 40)
